@@ -193,6 +193,62 @@ class CallSub(Rewrite):
         return _splice(text, edits)
 
 
+class ClosureDesugar(Rewrite):
+    """R-closure: `RECV.and_then(|p| BODY)` => `(match RECV { Some(p) => BODY, None => None })` (Option::and_then's definition);
+    `RECV.map(|p| BODY)` on an Option => `(match RECV { Some(p) => Some(BODY), None => None })`. RECV is the maximal postfix
+    chain (idents, `.`, `::`, balanced brackets, `?`) to the left. Verus accepts closures only with explicit contracts."""
+    rule = 'R-closure'
+    def __init__(self, method='and_then', count='+'):
+        self.method, self.count = method, count
+    def apply(self, text, log):
+        n = 0
+        while True:
+            toks = code_tokens(text)
+            hit = None
+            for i, t in enumerate(toks):
+                if t.text == self.method and i > 0 and toks[i - 1].text == '.' and i + 4 < len(toks) and toks[i + 1].text == '(' \
+                        and toks[i + 2].text == '|' and toks[i + 3].kind == 'ident' and toks[i + 4].text == '|':
+                    hit = i; break
+            if hit is None:
+                break
+            i = hit
+            close = match_close(toks, i + 1)
+            param = toks[i + 3].text
+            body = text[toks[i + 4].end:toks[close].start].strip()
+            # receiver: walk left over a postfix chain
+            j = i - 1   # the '.'
+            k = j - 1
+            while k >= 0:
+                t = toks[k]
+                if t.text in (')', ']'):
+                    d = 0
+                    while k >= 0:
+                        if toks[k].text in (')', ']', '}'): d += 1
+                        elif toks[k].text in ('(', '[', '{'):
+                            d -= 1
+                            if d == 0: break
+                        k -= 1
+                    k -= 1; continue
+                if t.kind in ('ident', 'num') and t.text not in ('let', 'return', 'if', 'match', 'in', 'else', 'mut'):
+                    k -= 1; continue
+                if t.text in ('.', '::', '?'):
+                    k -= 1; continue
+                break
+            start = toks[k + 1].start
+            recv = text[start:toks[j].start].strip()
+            if self.method == 'and_then':
+                new = f'(match {recv} {{ Some({param}) => {body}, None => None }})'
+            else:
+                new = f'(match {recv} {{ Some({param}) => Some({body}), None => None }})'
+            text = text[:start] + new + text[toks[close].end:]
+            n += 1
+        ok = (self.count == '*') or (self.count == '+' and n >= 1) or (self.count == n)
+        if not ok:
+            raise AnchorLost(f'rewrite R-closure expected {self.count} `.{self.method}(|x| ..)` but found {n}')
+        log.append((self.rule, f'.{self.method}(|x| ..) desugared to match', n))
+        return text
+
+
 class DropNestedFn(Rewrite):
     """Remove a nested `fn name` item from a body (it is extracted separately, hoisted)."""
     rule = 'R-hoist'
@@ -225,6 +281,8 @@ class ReSub(Rewrite):
 def _clause(c):
     """contract clause text -> `code, // comment`"""
     code, sep, com = c.strip().partition('   //')
+    if '\n' in com:
+        code, sep, com = c.strip(), '', ''
     return code.strip().rstrip(',') + ',' + ('   //' + com if sep else '')
 
 
@@ -314,17 +372,48 @@ class Unit:
             raise AnchorLost(f'file missing: {file}')
         return open(p, encoding='utf-8').read()
 
-    def extract_type(self, file, path, rewrites=(), label=None, post=None):
-        """Copy a struct/enum definition (attributes and comments stripped)."""
+    def extract_type(self, file, path, rewrites=(), label=None, post=None, keep_derives=()):
+        """Copy a struct/enum definition (attributes and comments stripped; `keep_derives` are re-attached
+        only if the real item derives them)."""
         it = locate(self._read(file), path)
         log = []
         text = apply_all(it.text, [StripAttrs()] + list(rewrites), log)
+        if keep_derives:
+            head = ''.join(t.text for t in code_tokens(it.src[it.start:it.decl]))
+            for d in keep_derives:
+                if not re.search(r'derive\([^)]*\b' + d + r'\b', head):
+                    raise AnchorLost(f'{file}::{"::".join(path)} no longer derives {d}')
+            text = '#[derive(' + ', '.join(keep_derives) + ')]\n' + text
+            log.append(('R-attr', 'derives kept: ' + ', '.join(keep_derives), len(keep_derives)))
         label = label or f'{file}::{"::".join(path)}'
         c = Chunk('real', label, meta=dict(file=file, line=it.line, kind=it.kind))
         c.add(text, 'typedef')
         self.chunks.append(c)
         for r in log: self.rewrite_log.append((label,) + r)
         return text
+
+
+    def shim_conformance(self, file, path, fields, variant=None):
+        """Shim-conformance check (DESIGN §3.4): every (field, type text) of a field-subset shim must occur in the real
+        definition (inside `variant { .. }` for an enum) with the same type text. Mismatch => AnchorLost (exit 2)."""
+        it = locate(self._read(file), path)
+        toks = code_tokens(it.body)
+        lo, hi = 0, len(toks)
+        if variant:
+            hits = [i for i, t in enumerate(toks) if t.text == variant and i + 1 < len(toks) and toks[i + 1].text == '{']
+            if len(hits) != 1:
+                raise AnchorLost(f'shim conformance: variant {variant} not found in {file}::{"::".join(path)}')
+            lo = hits[0] + 1; hi = match_close(toks, lo)
+        texts = [t.text for t in toks]
+        for name, ty in fields:
+            pat = [name, ':'] + pat_tokens(ty)
+            ok = False
+            for a, b in find_seq(toks, pat, lo, hi):
+                if b < len(toks) and texts[b] in (',', '}'):
+                    ok = True
+            if not ok:
+                raise AnchorLost(f'shim conformance: `{name}: {ty}` not found in real {file}::{"::".join(path)}' + (f'::{variant}' if variant else ''))
+        self.rewrite_log.append((f'{file}::{"::".join(path)}' + (f'::{variant}' if variant else ''), 'shim-conformance', f'{len(fields)} shim field(s) match the real definition', len(fields)))
 
     def extract_fn(self, file, path, *, name=None, sig_rewrites=(), rewrites=(), ret='r',
                    requires=(), ensures=(), decreases=None, loops=None, head_proof=None,
